@@ -15,6 +15,9 @@ package absnfs
 
 //@ func uint64MinHeap.PushValue
 //@ assumed
+// the heap is viewed as a SET of free ids: exact only while no value is pushed twice (a duplicate would be handed out
+// twice by PopValue), so every push has to show the value is not already there
+//@ requires [not-already-free] !heapSet[h][val]
 //@ modifies heapSet
 //@ ensures heapSet[h][val] && forall(x, uint64, x != val ==> heapSet[h][x] == old(heapSet[h][x])) && forall(o, mathint, o != h ==> heapSet[o] == old(heapSet[o]))
 
@@ -57,7 +60,7 @@ package absnfs
 //@ ensures [inv-ids] fmIds(fm)
 //@ ensures [inv-rev] fmRev(fm)
 // (C04: the handle serves the object most recently looked up under the path, not an older record for it)
-//@ ensures [live] {C05, C04} has(fm.handles, result) && fm.handles[result] == f
+//@ ensures [live] {C05, C04, C02} has(fm.handles, result) && fm.handles[result] == f
 //@ ensures [one-per-path] nodePath(f) != "" && old(has(fm.pathHandles, nodePath(f))) ==> result == old(fm.pathHandles[nodePath(f)])
 //@ ensures [bounded] len(fm.handles) <= maxEff(fm)
 //@ ensures [unlocked] held(fm.RWMutex) == 0
